@@ -14,6 +14,7 @@ import (
 
 	"github.com/gokrazy/rsync/rsyncd"
 	"github.com/gokrazy/rsync/verifharness/fstree"
+	"github.com/gokrazy/rsync/verifharness/wirekit"
 )
 
 // concScn: N simultaneous sessions against ONE daemon (C18, second half).
@@ -24,6 +25,7 @@ type concScn struct {
 	Same  bool   `json:"same"`  // identical targets (all sessions write to the same destination)
 	Procs int    `json:"procs"` // GOMAXPROCS
 	Seed  int64  `json:"seed"`
+	Wire  bool   `json:"wire"` // distinct targets: record every session's complete transcript through its own tap proxy (RsyncTrace.tla)
 }
 
 type concObs struct {
@@ -37,6 +39,16 @@ type concObs struct {
 	Equal   []bool   `json:"equal"`   // per session: destination equals the solo result
 	Elapsed float64  `json:"elapsed"`
 	Diff    string   `json:"diff"`
+	// Wire: the source tree as built and, per session, its transcript and the destination it produced
+	Src      []fstree.Node `json:"src,omitempty"`
+	Sessions []concSess    `json:"sessions,omitempty"`
+}
+
+type concSess struct {
+	I      int           `json:"i"`
+	Result string        `json:"result"`
+	Full   *fullObs      `json:"fullwire"`
+	Final  []fstree.Node `json:"final"`
 }
 
 func firstDiff(a, b string) string {
@@ -113,6 +125,13 @@ func concHandler(w *workerCtx, line []byte) (any, error) {
 	obs.SoloOK = e1 == nil && e2 == nil
 	wantPull := treeDigest(soloPull)
 	wantPush := treeDigest(filepath.Join(base, fmt.Sprintf("up%d", s.N)))
+	wire := s.Wire && !s.Same
+	known := fstree.Known{}
+	for i := 0; i < 24; i++ {
+		known.Add(100+i, sizes[i%len(sizes)])
+	}
+	recs := make([]*wireRec, s.N)
+	waits := make([]func(), s.N)
 	t0 := time.Now()
 	results := make([]string, s.N)
 	dests := make([]string, s.N)
@@ -136,6 +155,19 @@ func concHandler(w *workerCtx, line []byte) (any, error) {
 			dests[i] = filepath.Join(base, fmt.Sprintf("pull%d", k))
 			os.MkdirAll(dests[i], 0o755)
 			args = []string{"-rlt", url + "src/", dests[i] + "/"}
+		}
+		if wire {
+			// this session's own tap proxy in front of the daemon
+			recs[i] = newWireRec()
+			pp, pstop, pwait, perr := tapProxy(port, recs[i])
+			if perr != nil {
+				return nil, perr
+			}
+			defer pstop()
+			waits[i] = pwait
+			for k := range args {
+				args[k] = strings.Replace(args[k], "127.0.0.1:"+port, "127.0.0.1:"+pp, 1)
+			}
 		}
 		wg.Add(1)
 		go func(i int, args []string) {
@@ -162,6 +194,23 @@ func concHandler(w *workerCtx, line []byte) (any, error) {
 		obs.Equal = append(obs.Equal, got == want)
 		if got != want && obs.Diff == "" {
 			obs.Diff = firstDiff(want, got)
+		}
+	}
+	if wire {
+		var err error
+		if obs.Src, err = fstree.Snapshot(src, known); err != nil {
+			return nil, err
+		}
+		for i := 0; i < s.N; i++ {
+			cs := concSess{I: i, Result: results[i]}
+			if results[i] == "ok" {
+				waits[i]()
+				cs.Full = recs[i].analyseFull(pushes[i], fullOpts{Daemon: true, List: wirekit.ListOpts{Links: true}})
+			}
+			if cs.Final, err = fstree.Snapshot(dests[i], known); err != nil {
+				return nil, err
+			}
+			obs.Sessions = append(obs.Sessions, cs)
 		}
 	}
 	return obs, nil
